@@ -2,6 +2,10 @@ import LabtechModel.Driver.RunCmd
 import LabtechModel.Model.Env
 import LabtechModel.Driver.DiagCmd
 import LabtechModel.Driver.LogCmd
+import LabtechModel.Driver.PathCmd
+import LabtechModel.Driver.SaveCmd
+import LabtechModel.Driver.HistCmd
+import LabtechModel.Driver.ParamsCmd
 /-! Line-protocol driver: one command per input line, one observation line per command. -/
 
 def step (line : String) : String :=
@@ -10,6 +14,11 @@ def step (line : String) : String :=
   | "ENV" :: rest => Lt.Env.handle rest
   | "DIAG" :: rest => Lt.DiagCmd.handle rest
   | "LOG" :: rest => Lt.LogCmd.handle rest
+  | "PATH" :: rest => Lt.PathCmd.handle rest
+  | "SAVE" :: rest => Lt.Save.Cmd.handle rest
+  | "HIST" :: rest => Lt.Store.Cmd.handle rest
+  | "NORM" :: rest => Lt.Params.Cmd.handle "NORM" rest
+  | "CTASKS" :: rest => Lt.Params.Cmd.handle "CTASKS" rest
   | _ => "bad-op"
 
 partial def loop (h : IO.FS.Stream) (out : IO.FS.Stream) : IO Unit := do
